@@ -318,13 +318,16 @@ func genCount(r *kit.Rand) []string {
 	return c.lines
 }
 
-var groupPool = []string{"a", "b", "c", "a b", "é"}
+var groupPool = []string{"a", "b", "c", "a b", "é", "g5", "g6", "g7", "g,8", "g=9", "g10", "g11"}
 
 // genTask: several groups, each with its own message sequence (generated like the hook cases), interleaved.
 func genTask(r *kit.Rand) []string {
 	var header string
 	var seqs [][]string // per group: lines "p t id"
 	ng := r.Range(1, 4)
+	if r.Chance(1, 4) {
+		ng = r.Range(6, len(groupPool)) // many interleaved groups
+	}
 	if r.Chance(1, 3) {
 		pc, ec, fill := r.Range(1, 6), r.Range(1, 8), r.Bool()
 		header = fmt.Sprintf("task cw %d %d %s", pc, ec, b01(fill))
@@ -399,6 +402,57 @@ func genTask(r *kit.Rand) []string {
 	return lines
 }
 
+// genTaskBarrier: a real `barrier().idle(…)` node (optionally `.delete(TRUE)`) above the window. Bursts of
+// points for a few groups, then real-time idleness until the barrier node has emitted a barrier (and deleted
+// the group), then the next burst far enough ahead in data time: the window sees barriers, group deletions
+// and re-creations produced by the real node.
+func genTaskBarrier(r *kit.Rand) []string {
+	const idle = int64(60 * 1000000) // 60 ms, real time and data time
+	unit := int64(5 * 1000000)
+	del := r.Chance(2, 3)
+	var header string
+	if r.Chance(1, 4) {
+		header = fmt.Sprintf("task cw %d %d %s barrier %d %s", r.Range(1, 4), r.Range(1, 5), b01(r.Bool()), idle, b01(del))
+	} else {
+		P := r.Range(1, 12)
+		E := pickEvery(r, P, r.Intn(4))
+		header = fmt.Sprintf("task tw %d %d %s %s barrier %d %s", int64(P)*unit, int64(E)*unit, b01(r.Chance(1, 3)), b01(r.Chance(1, 3)), idle, b01(del))
+	}
+	lines := []string{header}
+	ng := r.Range(1, 3)
+	t := int64(r.Intn(100)) * unit
+	id := 0
+	bursts := r.Range(2, 3)
+	for b := 0; b < bursts; b++ {
+		for g := 0; g < ng; g++ {
+			if b > 0 && r.Chance(1, 4) {
+				continue // this group stays silent in this burst
+			}
+			tg := t + int64(r.Intn(3))*unit
+			for i, n := 0, r.Range(1, 6); i < n; i++ {
+				tg += int64(r.Intn(4)) * unit
+				if r.Chance(1, 5) {
+					tg += int64(r.Range(2, 14)) * unit
+				}
+				id++
+				lines = append(lines, fmt.Sprintf("w %s %d %d", kit.Esc(groupPool[g]), tg, id))
+			}
+		}
+		if b+1 < bursts || r.Bool() {
+			lines = append(lines, "idle")
+		}
+		// next burst: far enough that the barrier node (which drops points older than its last barrier) lets it pass
+		t += int64(r.Range(200, 400)) * idle
+	}
+	for g := 0; g < ng; g++ {
+		lines = append(lines, "in "+kit.Esc(groupPool[g]))
+	}
+	for g := 0; g < ng; g++ {
+		lines = append(lines, "final "+kit.Esc(groupPool[g]))
+	}
+	return lines
+}
+
 func b01(b bool) string {
 	if b {
 		return "1"
@@ -420,9 +474,9 @@ func max64(a, b int64) int64 {
 
 func generate(out *kit.Out, f kit.Flags) {
 	r := kit.NewRand(f.Seed)
-	nTask := 12
+	nTask, nBarrier := 24, 6
 	if f.Tier == "thorough" {
-		nTask = 60 + f.N/100
+		nTask, nBarrier = 60+f.N/100, 40
 	}
 	if v, ok := f.Extra["tasks"]; ok {
 		nTask = int(atoi(v))
@@ -442,5 +496,11 @@ func generate(out *kit.Out, f kit.Flags) {
 	}
 	for i := 0; i < nTask; i++ {
 		emit(out, fmt.Sprintf("k%d", i), execCase(genTask(r.Fork())))
+	}
+	if v, ok := f.Extra["barriers"]; ok {
+		nBarrier = int(atoi(v))
+	}
+	for i := 0; i < nBarrier; i++ {
+		emit(out, fmt.Sprintf("b%d", i), execCase(genTaskBarrier(r.Fork())))
 	}
 }
